@@ -131,6 +131,8 @@ def build_py(d, ui, python, cse, want_ekf, presentation=None):
         extra["sat"] = user_sat
         cfg["python_modules"] = tuple(mods_[:-1] + [extra]) if isinstance(mods_[-1], dict) else tuple(mods_ + [extra])
     pn, sm, sn, cm = ekf_args(d, symtab, order=pres.get("order"), variety=pres.get("variety"))
+    if pres.get("variety"):
+        cfg = python.Config(**cfg)        # the configuration as an object instead of a dict: the same configuration
     if want_ekf:
         impl = python.compile_ekf(model, process_noise=pn, sensor_models=sm, sensor_noises=sn,
                                   calibration_map=cm, config=cfg)
